@@ -442,4 +442,87 @@ PROPS = {
              "request line",
         assumptions=["argmin Nelder-Mead and libm are uninterpreted", "IEEE comparison semantics: a comparison with NaN is false, partial_cmp with NaN is None"],
     ),
+    "C10": dict(
+        lean_modules=["AlphaG.Props.C10"],
+        required_theorems=["AlphaG.C10." + t for t in [
+            "assembly_spec", "assembly_accepts_iff", "assembly_ignores", "assembly_rejects_unknown_name",
+            "assembly_rejects_malformed_payload", "assembly_rejects_malformed_pwb_packet", "assembly_rejects_bv_channel",
+            "assembly_rejects_wire_channel_mismatch", "assembly_rejects_wire_board_mismatch",
+            "assembly_rejects_pad_board_mismatch", "assembly_rejects_packet_identity_mismatch",
+            "assembly_rejects_duplicate_wire_bank", "assembly_rejects_missing_trg", "assembly_rejects_duplicate_trg",
+            "assembly_rejects_duplicate_chunk_id", "assembly_rejects_missing_wire_map_or_calibration",
+            "assembly_rejects_missing_pad_map_or_calibration"]],
+        harness=[("c10", ["dev"])],
+        level_text="Lean theorems for every bank list and run number: on success each wire slot holds exactly the expected signal "
+                   "(the unique C-bank whose decoded (board, channel) maps to that wire, leading delay samples dropped, "
+                   "(raw - baseline) * gain; empty otherwise), each pad slot likewise through (board, chip, pad channel), the "
+                   "timestamp is the TRG packet's (assembly_spec); success is characterised exactly by an order-free "
+                   "predicate (assembly_accepts_iff), with one rejection theorem per cause named in the property (unknown "
+                   "name, name/payload mismatch, BV channel, duplicates, missing TRG, malformed payloads, missing map or "
+                   "calibration, packet identity); B-banks, TRBA and MCVX are ignored. Composes the decoder models of C02-C06 "
+                   "and the maps of C08.",
+        level_note="Calibration values (baseline i16, gain f64 bits) are dumped from the built code through the hooks and "
+                   "cross-checked by the translator against an independent parse of the JSON/RON data files (baselines equal, "
+                   "gains within 1 ulp); serde_json/ron parsing is thereby trusted only up to that cross-check. HashMap "
+                   "iteration order is an explicit parameter of the model. The model is tied to try_from_banks + the "
+                   "verif_signals hook bit-exactly over all (board, channel) pairs / installed (board, chip, channel) triples "
+                   "and all 25 run classes, with every inconsistency injected. Repaired defects F2, F6, F10 are reported again "
+                   "if they return.",
+        technique="Lean 4 theorems over a compositional hand-written model (generated maps and calibration tables) + bit-exact "
+                  "differential correspondence check through a read-only hook",
+        design_ref="DESIGN.md section 6, C10",
+        rule="cases: element sweeps over all 256 wire channels and all installed pad triples per calibration run class "
+             "(every threshold +-1), 33 injection generators (renamed/swapped/duplicated banks, missing TRG, BV channel, board "
+             "not installed, malformed payloads, lost chunks, ignored banks, empty-after-delay, the former F6 and F10 input "
+             "classes); distinct by request line",
+        assumptions=["uom quantities are the identity on SI base values", "HashMap::into_iter order is arbitrary (model parameter)"],
+    ),
+    "C09": dict(
+        lean_modules=["AlphaG.Props.C09"],
+        required_theorems=["AlphaG.C09." + t for t in [
+            "buildEvent_total", "timestamp_total", "avalanches_wire_range", "avalanches_column_lt"]],
+        harness=[("c09", ["dev", "release"])],
+        disagreement_is_failing_input=False,
+        oracle_failing_regex=r"panic",
+        level_text="Lean theorem: building a main event never panics, for every bank list, run number and HashMap order "
+                   "(buildEvent_total: every unwrap/index site of try_from_banks incl. the i32 calibration arithmetic and slot "
+                   "indices), composing the totality theorems of all decoders (C01); timestamp is total; the non-float panic "
+                   "sites of avalanches() that are index arithmetic are proved dead (8-wire ranges with first <= 248, column "
+                   "index < 32). The float-dependent sites are inventoried in Props/C09.lean.",
+        level_note="Partial: that no NaN/infinity reaches the partial_cmp().unwrap() sorts, the Cholesky solve, argmin's "
+                   "Nelder-Mead or the NaN asserts of the cost functions in f64 cannot be proved here (no IEEE-754 semantics); "
+                   "avalanches() and vertex() are run under catch_unwind in dev and release builds on random, extreme-valued "
+                   "(i16::MIN/MAX samples, requested 0/1/511, all 79 channels, lengths around the delay) and simulated track "
+                   "events — sampling, labelled as such. Repaired defect F2 is reported again if it returns.",
+        technique="Lean 4 totality theorem over the compositional event model + adversarial sampling of the float pipeline "
+                  "under catch_unwind (dev + release)",
+        design_ref="DESIGN.md section 6, C09",
+        rule="cases: random bank names x bytes, extreme-valued CRC-valid events at every run class, duplicated/missing/"
+             "foreign banks, simulated track events; each runs try_from_banks, timestamp, avalanches, vertex; distinct by "
+             "request line",
+        assumptions=["argmin, faer and libm are not modelled"],
+    ),
+    "C11": dict(
+        lean_modules=["AlphaG.Props.C11"],
+        required_theorems=["AlphaG.C11." + t for t in [
+            "build_perm_invariant", "build_order_invariant", "results_function_of_event", "results_perm_invariant"]],
+        harness=[("c11", ["dev"])],
+        disagreement_is_failing_input=False,
+        level_text="Lean theorem at full strength: for any permutation of the bank list and any two HashMap iteration orders "
+                   "the build succeeds or fails alike and on success yields equal events (build_perm_invariant — uses the "
+                   "permutation invariance of chunk reassembly (C04), the injectivity of the wire and pad maps (C08) and the "
+                   "order-free acceptance predicate of C10); timestamp, avalanches and vertex are functions of the event "
+                   "value. The explicit iteration-order parameter of the model is what exposed the nondeterminism F10/X3, "
+                   "now repaired.",
+        level_note="Partial: bit-for-bit reproducibility across threads and processes (absence of hidden state in argmin, "
+                   "faer, indexmap, lazy_static) is a runtime matter no theorem here reaches; it is sampled: every event is "
+                   "recomputed under all adjacent transpositions, the reversal and 50 random permutations, on 4 threads and in "
+                   "3 fresh child processes (fresh HashMap seeds), comparing (timestamp, avalanches, vertex) bit patterns.",
+        technique="Lean 4 theorem (permutation invariance with an explicit hash-order parameter) + schedule/process sampling "
+                  "on the implementation",
+        design_ref="DESIGN.md section 6, C11",
+        rule="cases: events (well-formed, malformed, with duplicates, simulated tracks) x adjacent transpositions, reversal, 50 "
+             "random permutations; 4 threads; 3 child processes; distinct by request line",
+        assumptions=["child processes are started from the harness binary itself (current_exe)"],
+    ),
 }
